@@ -30,8 +30,8 @@ func Break(t *rapid.T, c GraphCase, permille int, refusePct int) (GraphCase, []s
 			switch m := n.(type) {
 			case map[string]any:
 				if r, ok := m["$ref"].(string); ok {
-					if rapid.IntRange(0, 999).Draw(t, "break") < permille {
-						switch rapid.IntRange(0, 7).Draw(t, "fault") {
+					if Permille(t, "break", permille) {
+						switch Uniform(t, "fault", 8) {
 						case 0:
 							m["$ref"] = r + "/nowhere"
 						case 1:
@@ -76,7 +76,7 @@ func Break(t *rapid.T, c GraphCase, permille int, refusePct int) (GraphCase, []s
 	}
 	var refused []string
 	for _, u := range urls {
-		if u != c.Root && rapid.IntRange(0, 99).Draw(t, "refuse") < refusePct {
+		if u != c.Root && Pct(t, "refuse", refusePct) {
 			refused = append(refused, u)
 		}
 	}
